@@ -372,6 +372,40 @@ func EngineBuiltForEveryInput(p *core.Program, r *core.Report, rule string) {
 	w.WalkBody(fd.Decl.Body, nil)
 	r.Check(seen && bad == "", rule, fd.Key()+": every successful path builds the policy engine from the parsed objects", p.Pos(fd.Decl.Pos()), "",
 		"the analysis can return successfully (at "+bad+") without having populated the policy engine: duplicate names, equal priorities, a second baseline policy are detected while the engine is populated, so such an input is accepted silently")
+	// the entry: a successful answer that does not come from connsListFromParsedResources is given only where
+	// stopProcessing() is known to hold (a severe error with stop-on-error, or a fatal one) - not for any other
+	// reason to "skip the work" (no workloads, nothing to list): the conflicts are found while the engine is built
+	if entry := p.Func(core.PkgConnlist, "ConnlistAnalyzer", "ConnlistFromResourceInfos"); entry != nil {
+		einfo := entry.Pkg.TypesInfo
+		ew := facts.NewWalker(einfo)
+		badE := ""
+		nFwd := 0
+		ew.OnExit = func(st int, ret *ast.ReturnStmt, f facts.Formula) {
+			if ew.FuncLitDepth > 0 || ret == nil || IsErrorReturn(p, ew, entry.Obj, ret, f) || !facts.Satisfiable(f) {
+				return
+			}
+			if len(ret.Results) == 1 {
+				if c, ok := ast.Unparen(ret.Results[0]).(*ast.CallExpr); ok && core.Callee(einfo, c) == fd.Obj {
+					nFwd++
+					return
+				}
+			}
+			stopKnown := false
+			for _, a := range facts.Atoms(f) {
+				if strings.HasPrefix(a, "b:") && strings.HasSuffix(facts.StripVersions(a), ".stopProcessing()") && facts.Entails(f, facts.Atom(a)) {
+					stopKnown = true
+				}
+			}
+			if !stopKnown && badE == "" {
+				badE = p.Pos(ret.Pos()) + " under " + facts.StripVersions(facts.String(f))
+			}
+		}
+		ew.WalkBody(entry.Decl.Body, nil)
+		r.Check(badE == "" && nFwd > 0, rule, entry.Key()+": answers without building the engine only when processing has to stop", p.Pos(entry.Decl.Pos()), "",
+			"the entry returns successfully without the analysis ("+badE+") where stopProcessing() is not known to hold: policy conflicts (equal priorities, duplicate names, a second baseline policy) are detected only while the engine is populated, so such an input is accepted silently")
+	} else {
+		r.Lost(rule, "(*ConnlistAnalyzer).ConnlistFromResourceInfos")
+	}
 	// and getPolicyEngine hands ALL objects to the engine
 	if ge := p.Func(core.PkgConnlist, "ConnlistAnalyzer", "getPolicyEngine"); ge != nil {
 		ginfo := ge.Pkg.TypesInfo
@@ -626,17 +660,31 @@ func KeyAndMatcherNormaliseAlike(p *core.Program, r *core.Report, rule string) {
 		r.Lost(rule, "k8s.UniqueKeyFromLabelsSelector / SelectorsFullMatch")
 		return
 	}
+	ownOnly := false
 	normalisers := func(fd *core.FuncDecl) map[string]bool {
 		out := map[string]bool{}
 		seen := map[*types.Func]bool{}
 		var rec func(fd *core.FuncDecl)
 		rec = func(fd *core.FuncDecl) {
-			if seen[fd.Obj] {
+			if seen[fd.Obj] || (ownOnly && len(seen) > 0) {
 				return
 			}
 			seen[fd.Obj] = true
 			info := fd.Pkg.TypesInfo
 			ast.Inspect(fd.Decl.Body, func(nd ast.Node) bool {
+				// a set of strings kept in a map: de-duplicates
+				if as, isAs := nd.(*ast.AssignStmt); isAs && len(as.Lhs) == 1 {
+					if ix, isIx := ast.Unparen(as.Lhs[0]).(*ast.IndexExpr); isIx {
+						if mt, isM := info.TypeOf(ix.X).Underlying().(*types.Map); isM {
+							if kb, isB := mt.Key().Underlying().(*types.Basic); isB && kb.Info()&types.IsString != 0 {
+								switch mt.Elem().Underlying().(type) {
+								case *types.Basic, *types.Struct:
+									out["map used as a set of strings (de-duplicates)"] = true
+								}
+							}
+						}
+					}
+				}
 				c, ok := nd.(*ast.CallExpr)
 				if !ok {
 					return true
@@ -644,6 +692,9 @@ func KeyAndMatcherNormaliseAlike(p *core.Program, r *core.Report, rule string) {
 				fn := core.Callee(info, c)
 				if fn == nil || fn.Pkg() == nil {
 					return true
+				}
+				if strings.HasSuffix(fn.Pkg().Path(), "apimachinery/pkg/util/sets") {
+					out["sets (de-duplicates and sorts)"] = true
 				}
 				switch fn.Pkg().Path() {
 				case "sort", "slices":
@@ -668,6 +719,25 @@ func KeyAndMatcherNormaliseAlike(p *core.Program, r *core.Report, rule string) {
 	for k := range kn {
 		if !mn[k] {
 			extra = append(extra, k)
+		}
+	}
+	// and at the level of the two functions themselves (the list of requirements as a whole): what the key function does
+	// to that list in its own body, the matcher does in its own body too - a helper deeper down that both share (e.g.
+	// sorting the VALUES inside one requirement) must not hide a de-duplication or re-ordering of the requirements
+	ownOnly = true
+	kno, mno := normalisers(kf), normalisers(mf)
+	ownOnly = false
+	for k := range kno {
+		if !mno[k] {
+			dup := false
+			for _, e := range extra {
+				if e == k {
+					dup = true
+				}
+			}
+			if !dup {
+				extra = append(extra, k+" (on the list of requirements)")
+			}
 		}
 	}
 	r.Check(len(extra) == 0, rule, kf.Key()+": the de-duplication key normalises selectors no further than the rule matcher does", p.Pos(kf.Decl.Pos()), fmt.Sprintf("key: %v, matcher: %v", sortedKeys(kn), sortedKeys(mn)),
@@ -750,4 +820,430 @@ func RepresentativePairExclusionTable(p *core.Program, r *core.Report, rule stri
 	w.WalkBody(fd.Decl.Body, nil)
 	r.RuleCounts[rule] = n
 	r.Floor(rule, 1)
+}
+
+// AdminSelectionExcludesIPs is E2-N3-sel, the premise of the parameter invariants of E2-N3 (the destination whose named
+// ports an admin-policy rule resolves is a pod): the admin-policy peer selection functions answer true only for a peer
+// that is known not to be an IP block. Decided by provenance of the answer: a constant true must sit on a path that
+// entails !isIP(peer); a variable answer is judged at each of its assignments; an answer taken from a callee that is
+// handed the peer is judged in the callee (recursively). A new way of selecting (e.g. by CIDR) that can answer true
+// for an IP block breaks the premise, and with it the guarantee that named ports are never resolved on a nil pod.
+func AdminSelectionExcludesIPs(p *core.Program, r *core.Report, rule string) {
+	memo := map[string]int{} // 0 unknown, 1 in progress / ok, 2 bad
+	why := map[string]string{}
+	var positive func(fd *core.FuncDecl, k int, depth int) bool
+	positive = func(fd *core.FuncDecl, k int, depth int) bool {
+		key := fmt.Sprintf("%s#%d", fd.Key(), k)
+		switch memo[key] {
+		case 1:
+			return true
+		case 2:
+			return false
+		}
+		memo[key] = 1
+		info := fd.Pkg.TypesInfo
+		sig := fd.Obj.Type().(*types.Signature)
+		if k >= sig.Params().Len() || depth > 4 {
+			memo[key] = 2
+			why[key] = "the peer is not followed into " + fd.Key()
+			return false
+		}
+		peer := sig.Params().At(k)
+		w := facts.NewWalker(info)
+		w.Atomize = PeerTypeAtomizer(info)
+		w.Inline = true
+		type site struct {
+			e ast.Expr
+			f facts.Formula
+			p string
+		}
+		var rets []site
+		assigns := map[types.Object][]site{}
+		w.OnStmt = func(s ast.Stmt, f facts.Formula) {
+			if w.FuncLitDepth > 0 {
+				return
+			}
+			pp := w.PathOfVar(peer)
+			switch x := s.(type) {
+			case *ast.ReturnStmt:
+				if len(x.Results) > 0 {
+					rets = append(rets, site{x.Results[0], f, pp})
+				}
+			case *ast.AssignStmt:
+				for i, l := range x.Lhs {
+					id, ok := ast.Unparen(l).(*ast.Ident)
+					if !ok {
+						continue
+					}
+					var rhs ast.Expr
+					if len(x.Rhs) == len(x.Lhs) {
+						rhs = x.Rhs[i]
+					} else if len(x.Rhs) == 1 && i == 0 {
+						rhs = x.Rhs[0]
+					}
+					if rhs != nil {
+						assigns[info.ObjectOf(id)] = append(assigns[info.ObjectOf(id)], site{rhs, f, pp})
+					}
+				}
+			}
+		}
+		w.WalkBody(fd.Decl.Body, nil)
+		okAll := true
+		var judge func(s site, seen map[types.Object]bool) bool
+		judge = func(s site, seen map[types.Object]bool) bool {
+			e := ast.Unparen(s.e)
+			if v, isC := core.ConstString(info, e); isC && v == "false" {
+				return true
+			}
+			if facts.Entails(s.f, facts.MkNot(facts.Atom("isIP:"+s.p))) || !facts.Satisfiable(s.f) {
+				return true
+			}
+			switch x := e.(type) {
+			case *ast.Ident:
+				o := info.ObjectOf(x)
+				if as, has := assigns[o]; has && !seen[o] {
+					seen[o] = true
+					for _, a := range as {
+						if !judge(a, seen) {
+							return false
+						}
+					}
+					return true
+				}
+			case *ast.CallExpr:
+				fn := core.Callee(info, x)
+				hd := p.ByObj[fn]
+				if hd == nil {
+					for _, g := range p.Impls(fn) {
+						if gd := p.ByObj[g]; gd != nil {
+							hd = gd
+						}
+					}
+				}
+				if hd != nil {
+					for j, a := range x.Args {
+						if id, isId := ast.Unparen(a).(*ast.Ident); isId && info.ObjectOf(id) == types.Object(peer) {
+							if positive(hd, j, depth+1) {
+								return true
+							}
+							why[key] = why[fmt.Sprintf("%s#%d", hd.Key(), j)]
+							return false
+						}
+					}
+				}
+			}
+			// the answer is given under a flag (`if fieldMatch { return true }`): it is positive only where the flag is,
+			// so the provenance of the flag decides
+			for o, as := range assigns {
+				v, isV := o.(*types.Var)
+				if !isV || seen[o] {
+					continue
+				}
+				if b, isB := v.Type().Underlying().(*types.Basic); !isB || b.Info()&types.IsBoolean == 0 {
+					continue
+				}
+				entailed := false
+				for _, a := range facts.Atoms(s.f) {
+					if facts.StripVersions(a) == "b:"+v.Name() && facts.Entails(s.f, facts.Atom(a)) {
+						entailed = true
+					}
+				}
+				if !entailed {
+					continue
+				}
+				seen[o] = true
+				all := true
+				for _, a := range as {
+					if !judge(a, seen) {
+						all = false
+					}
+				}
+				if all {
+					return true
+				}
+			}
+			if why[key] == "" {
+				why[key] = fmt.Sprintf("`%s` at %s can be true where the peer may be an IP block (path: %s)", core.ExprStr(e), p.Pos(e.Pos()), facts.StripVersions(facts.String(s.f)))
+			}
+			return false
+		}
+		for _, rt := range rets {
+			if !judge(rt, map[types.Object]bool{}) {
+				okAll = false
+			}
+		}
+		if okAll {
+			memo[key] = 1
+		} else {
+			memo[key] = 2
+		}
+		return okAll
+	}
+	n := 0
+	for _, name := range []string{"egressRuleSelectsPeer", "ingressRuleSelectsPeer", "subjectSelectsPeer"} {
+		fd := p.Func(core.PkgK8s, "", name)
+		if fd == nil {
+			r.Lost(rule, "k8s."+name)
+			continue
+		}
+		sig := fd.Obj.Type().(*types.Signature)
+		k := -1
+		for i := 0; i < sig.Params().Len(); i++ {
+			if isPeerish(sig.Params().At(i).Type()) {
+				k = i
+			}
+		}
+		if k < 0 {
+			r.Add(rule, fd.Key()+": has a peer parameter", p.Pos(fd.Decl.Pos()), core.Undecided, "no peer parameter found")
+			continue
+		}
+		n++
+		ok := positive(fd, k, 0)
+		r.Check(ok, rule, fd.Key()+": answers true only for a peer that is not an IP block", p.Pos(fd.Decl.Pos()), "every positive answer is given, here or in the callee it comes from, on a path that excludes IP blocks",
+			"an admin-policy selection can answer true for an IP block ("+why[fmt.Sprintf("%s#%d", fd.Key(), k)]+"): the port matchers that follow resolve named ports on the peer's pod, which is nil for an IP block - a crash for a rule that combines such a peer with a named port")
+	}
+	r.Floor(rule, 2)
+	_ = n
+}
+
+// NetpolPeerBeforePorts is C03-peer-first: wherever a NetworkPolicy rule's ports are examined for a concrete destination
+// (ruleConnsContain on the eval side, ruleConnections on the list side - the functions that convert a named port and
+// fail for an IP destination), the same function has asked ruleSelectsPeer first and the answer is known to be true at
+// that point. `ports contain the connection && peers select the peer` is not commutative: the port step is partial.
+// Anchored by the effect (the calls), not by the functions that happen to contain them today.
+func NetpolPeerBeforePorts(p *core.Program, r *core.Report, rule string) {
+	sel := p.Func(core.PkgK8s, "NetworkPolicy", "ruleSelectsPeer")
+	if sel == nil {
+		r.Lost(rule, "(*NetworkPolicy).ruleSelectsPeer")
+		return
+	}
+	portFns := map[*types.Func]bool{}
+	for _, nm := range []string{"ruleConnsContain", "ruleConnections"} {
+		if g := p.Func(core.PkgK8s, "NetworkPolicy", nm); g != nil && core.RecvTypeName(g.Obj.Type().(*types.Signature)) == "NetworkPolicy" {
+			portFns[g.Obj] = true
+		}
+	}
+	if len(portFns) < 2 {
+		r.Lost(rule, "(*NetworkPolicy).ruleConnsContain / ruleConnections")
+		return
+	}
+	n := 0
+	for _, fd := range p.FuncsIn(core.PkgK8s) {
+		info := fd.Pkg.TypesInfo
+		var portsCalls []*ast.CallExpr
+		var selVars []*ast.Ident
+		ast.Inspect(fd.Decl.Body, func(nd ast.Node) bool {
+			switch x := nd.(type) {
+			case *ast.CallExpr:
+				if fn := core.Callee(info, x); fn != nil && portFns[fn] && len(x.Args) > 0 {
+					if !core.IsNil(info, x.Args[len(x.Args)-1]) { // the exposure pre-scan passes no destination
+						portsCalls = append(portsCalls, x)
+					}
+				}
+			case *ast.AssignStmt:
+				if len(x.Rhs) == 1 {
+					if c, isC := ast.Unparen(x.Rhs[0]).(*ast.CallExpr); isC && core.Callee(info, c) == sel.Obj {
+						if id, isId := x.Lhs[0].(*ast.Ident); isId {
+							selVars = append(selVars, id)
+						}
+					}
+				}
+			}
+			return true
+		})
+		for _, pc := range portsCalls {
+			n++
+			ok := false
+			for _, id := range selVars {
+				fm, paths, found := FactsAtWith(fd, pc, nil, []ast.Expr{id})
+				if found && len(paths) == 1 && facts.Entails(fm, facts.Atom("b:"+paths[0])) {
+					ok = true
+				}
+			}
+			r.Check(ok, rule, fmt.Sprintf("%s: the rule's ports are examined (%s) only after its peers selected the peer", fd.Key(), core.RefName(core.Callee(info, pc))), p.Pos(pc.Pos()), "ruleSelectsPeer answered true on every path to the call",
+				"a NetworkPolicy rule's ports are examined before (or regardless of) its peers: the port step converts named ports on the destination and fails for an IP destination, so a rule that does not even select the peer now makes the query fail - eval errors where list, which matches peers first, answers")
+		}
+	}
+	r.RuleCounts[rule] = n
+	r.Floor(rule, 2)
+}
+
+// IntervalsFromRuntimeBounds is C05-c-range: an interval built from bounds that are not compile-time constants may be
+// the empty interval (end < start: a rule with endPort below port, a reversed portRange). CanonicalSet.AddInterval /
+// AddHole ignore an empty interval; Interval.ToSet() does not - it yields a set of ONE empty interval, which is not
+// IsEmpty() and slips through every "skip the empty port set" guard into the protocol map. So interval.New with
+// runtime bounds may only flow into AddInterval / AddHole, never into ToSet().
+func IntervalsFromRuntimeBounds(p *core.Program, r *core.Report, rule string) {
+	n := 0
+	for _, fd := range p.Funcs {
+		info := fd.Pkg.TypesInfo
+		var stack []ast.Node
+		ast.Inspect(fd.Decl.Body, func(nd ast.Node) bool {
+			if nd == nil {
+				stack = stack[:len(stack)-1]
+				return true
+			}
+			stack = append(stack, nd)
+			c, ok := nd.(*ast.CallExpr)
+			if !ok || len(c.Args) != 2 {
+				return true
+			}
+			fn := core.Callee(info, c)
+			if fn == nil || fn.Pkg() == nil || !strings.HasSuffix(fn.Pkg().Path(), "models/pkg/interval") || fn.Name() != "New" {
+				return true
+			}
+			n++
+			constBounds := info.Types[c.Args[0]].Value != nil && info.Types[c.Args[1]].Value != nil
+			sameExpr := core.ExprStr(c.Args[0]) == core.ExprStr(c.Args[1]) // [x,x] is never empty
+			// the consumer: the call this interval is an argument of, or the method called on it
+			use := "?"
+			if len(stack) >= 2 {
+				switch par := stack[len(stack)-2].(type) {
+				case *ast.CallExpr:
+					if pfn := core.Callee(info, par); pfn != nil {
+						use = pfn.Name()
+					}
+				case *ast.SelectorExpr:
+					use = par.Sel.Name
+				}
+			}
+			ok2 := constBounds || sameExpr || use == "AddInterval" || use == "AddHole"
+			r.Check(ok2, rule, fmt.Sprintf("%s: interval.New(%s, %s) with runtime bounds flows only into AddInterval / AddHole", fd.Key(), core.Stable(info, c.Args[0]), core.Stable(info, c.Args[1])), p.Pos(c.Pos()), "consumer: "+use,
+				"an interval with runtime bounds is turned into a set by "+use+": for end < start this is a set of one EMPTY interval, which IsEmpty() does not recognise - an empty connection enters the protocol map (listed as a connection with the range 0--1, and Subtract / ContainedIn go wrong on it)")
+			return true
+		})
+	}
+	r.RuleCounts[rule] = n
+	r.Floor(rule, 3)
+}
+
+// EmptinessIgnoresBookkeeping is C11-i: whether a port set is empty depends on the ports it allows (numbered and named),
+// never on ExcludedNamedPorts, which only records names removed from an all-ports set and denotes no allowed port.
+// (ConnectionSet keeps a protocol entry exactly while its port set is not IsEmpty().)
+func EmptinessIgnoresBookkeeping(p *core.Program, r *core.Report, rule string) {
+	m := p.Func(core.PkgCommon, "PortSet", "IsEmpty")
+	if m == nil {
+		r.Lost(rule, "(*PortSet).IsEmpty")
+		return
+	}
+	sums := Effects(p, core.PkgCommon)
+	s := sums[m.Obj]
+	got := map[string]bool{}
+	if s != nil {
+		for f := range s.FieldReads[0] {
+			got[f] = true
+		}
+	}
+	r.Check(got["Ports"] && got["NamedPorts"] && !got["ExcludedNamedPorts"], rule, m.Key()+": consults Ports and NamedPorts, not the excluded-names bookkeeping", p.Pos(m.Decl.Pos()), "reads "+setNames(got),
+		"PortSet.IsEmpty reads "+setNames(got)+": a set that allows nothing but has a recorded excluded name is then not empty, stays in the protocol map as `TCP Empty`, and the connection set is neither empty nor equal to the empty set")
+}
+
+// SubtractDeletesByContainment is C11-h: ConnectionSet.Subtract removes a protocol exactly when its port set is
+// ContainedIn the operand's (which lets a named port be covered by the full numeric range); "subtract, then drop if
+// IsEmpty" is not the same test - PortSet.subtract removes only names listed by name, so {TCP http} minus {TCP 1-65535}
+// would keep `TCP http`.
+func SubtractDeletesByContainment(p *core.Program, r *core.Report, rule string) {
+	fd := p.Func(core.PkgCommon, "ConnectionSet", "Subtract")
+	fld := p.Field(core.PkgCommon, "ConnectionSet", "AllowedProtocols")
+	if fd == nil || fld == nil {
+		r.Lost(rule, "(*ConnectionSet).Subtract / AllowedProtocols")
+		return
+	}
+	info := fd.Pkg.TypesInfo
+	w := facts.NewWalker(info)
+	n := 0
+	w.OnExpr = func(e ast.Expr, f facts.Formula) {
+		c, ok := e.(*ast.CallExpr)
+		if !ok || !core.IsBuiltinCall(info, c, "delete") || FieldBehind(fd, c.Args[0]) != fld || len(w.Loops) == 0 {
+			return
+		}
+		n++
+		okDel := false
+		for _, a := range facts.Atoms(f) {
+			if strings.HasPrefix(a, "b:") && strings.Contains(a, ".ContainedIn(") && facts.Entails(f, facts.Atom(a)) {
+				okDel = true
+			}
+		}
+		r.Check(okDel, rule, fd.Key()+": a protocol is dropped from the difference exactly when its ports are ContainedIn the operand's", p.Pos(c.Pos()), "delete under ports.ContainedIn(otherPorts)",
+			"a protocol is dropped from A \\\\ B under "+facts.StripVersions(facts.String(f))+", not under containment of its port set in B's: a named port that B covers by the full numeric range survives the subtraction (A within B, yet A \\\\ B not empty)")
+	}
+	w.WalkBody(fd.Decl.Body, nil)
+	if n == 0 {
+		r.Bad(rule, fd.Key()+": a protocol is dropped from the difference exactly when its ports are ContainedIn the operand's", p.Pos(fd.Decl.Pos()), "no removal of a protocol entry inside the per-protocol loop of Subtract")
+	}
+}
+
+// SomePeerSelects is the existential discipline of rule-peer lists: a rule selects a peer if SOME entry of its from/to
+// list does, so a function that walks such a list and answers (bool, error) must not answer `false` (without an error)
+// inside the loop - an entry that does not select the peer is skipped (continue), the negative answer is given only
+// after the list is exhausted. Applies to every function of package k8s that ranges over a list of NetworkPolicy or
+// admin-policy rule peers, whatever it is called (anchored by the type ranged over).
+func SomePeerSelects(p *core.Program, r *core.Report, rule string) {
+	isPeerList := func(t types.Type) bool {
+		if t == nil {
+			return false
+		}
+		sl, ok := t.Underlying().(*types.Slice)
+		if !ok {
+			return false
+		}
+		nt := core.NamedOf(sl.Elem())
+		if nt == nil {
+			return false
+		}
+		switch nt.Obj().Name() {
+		case "NetworkPolicyPeer", "AdminNetworkPolicyEgressPeer", "AdminNetworkPolicyIngressPeer":
+			return true
+		}
+		return false
+	}
+	n := 0
+	for _, fd := range p.FuncsIn(core.PkgK8s) {
+		sig := fd.Obj.Type().(*types.Signature)
+		if sig.Results().Len() == 0 {
+			continue
+		}
+		if b, ok := sig.Results().At(0).Type().Underlying().(*types.Basic); !ok || b.Info()&types.IsBoolean == 0 {
+			continue
+		}
+		info := fd.Pkg.TypesInfo
+		w := facts.NewWalker(info)
+		inPeerLoop := func() bool {
+			for _, l := range w.Loops {
+				if rs, ok := l.(*ast.RangeStmt); ok && isPeerList(info.TypeOf(rs.X)) {
+					return true
+				}
+			}
+			return false
+		}
+		has := false
+		bad := ""
+		w.OnStmt = func(s ast.Stmt, f facts.Formula) {
+			if rs, ok := s.(*ast.RangeStmt); ok && isPeerList(info.TypeOf(rs.X)) {
+				has = true
+			}
+			ret, ok := s.(*ast.ReturnStmt)
+			if !ok || w.FuncLitDepth > 0 || !inPeerLoop() || len(ret.Results) == 0 {
+				return
+			}
+			if v, isC := core.ConstString(info, ret.Results[0]); !isC || v != "false" {
+				return
+			}
+			if IsErrorReturn(p, w, fd.Obj, ret, f) {
+				return
+			}
+			if bad == "" {
+				bad = p.Pos(ret.Pos()) + " under " + facts.StripVersions(facts.String(f))
+			}
+		}
+		w.WalkBody(fd.Decl.Body, nil)
+		if !has {
+			continue
+		}
+		n++
+		r.Check(bad == "", rule, fd.Key()+": no negative answer before the list of rule peers is exhausted", p.Pos(fd.Decl.Pos()), "inside the loop: continue, a positive answer, or an error",
+			"`return false` inside the loop over the rule's peers ("+bad+"): the remaining entries of the from/to list are never compared, so a peer (or the representative peer generated from a later entry) that one of them selects is not selected by the rule - its connections, or its exposure line, are missing")
+	}
+	r.RuleCounts[rule] = n
+	r.Floor(rule, 3)
 }
